@@ -533,6 +533,8 @@ def viol_context(path, c, ln, vrid=None, prop=None):
             g = l.split("\t")
             if len(g) > 3 and (g[2] == c or not g[2].startswith(("c", "h"))) and (vr is None or g[3] in rel):
                 sites.add(g[1])
+                if g[3] == vr:
+                    sites.add(g[1] + "@same")     # recorded for the violation's own resource
             elif len(g) == 3 and (g[2] == c or not g[2].startswith(("c", "h"))):
                 sites.add(g[1])
     return sorted(set(ctx)), sorted(sites)
@@ -555,6 +557,8 @@ def match_known(ctx, pid, kind, contexts, sites, rid=None):
         if anyctx and not (set(anyctx) & set(contexts)):
             continue
         need_sites = f.get("sites")
+        if need_sites and f.get("site_scope") == "same":
+            need_sites = [x + "@same" for x in need_sites]
         pref = f.get("context_prefixes")
         by_site = bool(need_sites and (set(need_sites) & set(sites)))
         by_ctx = bool(pref and rid is not None and any((p + rid) in contexts for p in pref))
